@@ -235,3 +235,98 @@ theorem ni (p : D α) (c r : Bytes) (a : α) (m : List Bool)
 
 end D
 end Tdf
+
+/-! ### step lemmas: how each primitive reader consumes what the matching writer produced -/
+namespace Tdf
+namespace D
+
+theorem run_pure (a : α) (bs : Bytes) : (D.pure a).run bs = some (a, bs) := rfl
+
+theorem take_run (n : Nat) (k : Bytes → D α) (b rest : Bytes) (h : b.length = n) :
+    (D.take n k).run (b ++ rest) = (k b).run rest := by
+  simp only [run]
+  rw [if_neg (by simp; omega), List.take_append_of_le_length (by omega),
+      List.drop_append_of_le_length (by omega), List.take_of_length_le (by omega),
+      List.drop_eq_nil_of_le (by omega)]
+  simp
+
+theorem skip_run (n : Nat) (k : D α) (b rest : Bytes) (h : b.length = n) :
+    (D.skip n k).run (b ++ rest) = k.run rest := by
+  simp only [run]
+  rw [if_neg (by simp; omega), List.drop_append_of_le_length (by omega),
+      List.drop_eq_nil_of_le (by omega)]
+  simp
+
+theorem u16_run (n : Nat) (rest : Bytes) (h : n < 65536) :
+    D.u16.run (u16le n ++ rest) = some (n, rest) := by
+  unfold D.u16 u16le
+  rw [take_run _ _ _ _ (by simp)]
+  simp [run, leNat_leBytes 2 n (by omega)]
+
+theorem u32_run (n : Nat) (rest : Bytes) (h : n < 4294967296) :
+    D.u32.run (u32le n ++ rest) = some (n, rest) := by
+  unfold D.u32 u32le
+  rw [take_run _ _ _ _ (by simp)]
+  simp [run, leNat_leBytes 4 n (by omega)]
+
+theorem i16_run (z : Int) (rest : Bytes) (h1 : -32768 ≤ z) (h2 : z < 32768) :
+    D.i16.run (i16le z ++ rest) = some (z, rest) := by
+  unfold D.i16 i16le
+  rw [take_run _ _ _ _ (by simp)]
+  simp only [run]
+  rw [leNat_leBytes 2 _ (toTwos_lt 2 z), ofTwos_toTwos 2 z (by omega) (by simp; omega) (by simp; omega)]
+
+theorem i32_run (z : Int) (rest : Bytes) (h1 : -2147483648 ≤ z) (h2 : z < 2147483648) :
+    D.i32.run (i32le z ++ rest) = some (z, rest) := by
+  unfold D.i32 i32le
+  rw [take_run _ _ _ _ (by simp)]
+  simp only [run]
+  rw [leNat_leBytes 4 _ (toTwos_lt 4 z), ofTwos_toTwos 4 z (by omega) (by simp; omega) (by simp; omega)]
+
+theorem pad_run (n : Nat) (rest : Bytes) : (D.pad n).run (zeros n ++ rest) = some ((), rest) := by
+  unfold D.pad
+  rw [skip_run _ _ _ _ (by simp)]
+  rfl
+
+theorem raw_run (b rest : Bytes) : (D.raw b.length).run (b ++ rest) = some (b, rest) := by
+  unfold D.raw
+  rw [take_run _ _ _ _ rfl]
+  rfl
+
+theorem guard_true_run (bs : Bytes) : (D.guard true).run bs = some ((), bs) := rfl
+
+/-- sequencing: if `p` reads `x` off the front, `p >>= f` continues with `f x` -/
+theorem bind_run_of (p : D α) (f : α → D β) (bs r : Bytes) (x : α)
+    (h : p.run bs = some (x, r)) : (p.bind f).run bs = (f x).run r := by
+  rw [run_bind, h]
+
+theorem rep_run (p : D α) (e : α → Bytes) (xs : List α) (rest : Bytes)
+    (hp : ∀ x ∈ xs, ∀ r, p.run (e x ++ r) = some (x, r)) :
+    (D.rep xs.length p).run (xs.flatMap e ++ rest) = some (xs, rest) := by
+  induction xs generalizing rest with
+  | nil => simp [rep, run]
+  | cons x xs ih =>
+    simp only [List.length_cons, rep, bind_eq, List.flatMap_cons, List.append_assoc]
+    rw [bind_run_of _ _ _ _ x (hp x (by simp) _)]
+    rw [bind_run_of _ _ _ _ xs (ih _ (fun y hy r => hp y (by simp [hy]) r))]
+    rfl
+
+/-- a loop whose body depends on an argument taken from a list (`for seg in segments: read …`) -/
+theorem forM'_run (f : γ → D α) (e : α → Bytes) (arg : α → γ) (xs : List α) (rest : Bytes)
+    (hp : ∀ x ∈ xs, ∀ r, (f (arg x)).run (e x ++ r) = some (x, r)) :
+    (D.forM' (xs.map arg) f).run (xs.flatMap e ++ rest) = some (xs, rest) := by
+  induction xs generalizing rest with
+  | nil => simp [forM', run]
+  | cons x xs ih =>
+    simp only [List.map_cons, forM', bind_eq, List.flatMap_cons, List.append_assoc]
+    rw [bind_run_of _ _ _ _ x (hp x (by simp) _)]
+    rw [bind_run_of _ _ _ _ xs (ih _ (fun y hy r => hp y (by simp [hy]) r))]
+    rfl
+
+end D
+end Tdf
+
+namespace Tdf
+theorem D.guard_run (c : Bool) (bs : Bytes) (h : c = true) : (D.guard c).run bs = some ((), bs) := by
+  subst h; rfl
+end Tdf
